@@ -22,6 +22,8 @@ def parseOp (ws : List String) : Option Op :=
   | ["and", a, b] => some (.and a.toNat! b.toNat!)
   | ["or", a, b] => some (.or a.toNat! b.toNat!)
   | ["xor", a, b] => some (.xor a.toNat! b.toNat!)
+  | ["lt", a, b] => some (.lt a.toNat! b.toNat!)
+  | ["eq", a, b] => some (.eq a.toNat! b.toNat!)
   | ["subw", a, b, n] => some (.subw a.toNat! b.toNat! n.toNat!)
   | ["shr", a, k] => some (.shr a.toNat! k.toNat!)
   | ["shl", a, k] => some (.shl a.toNat! k.toNat!)
